@@ -21,7 +21,8 @@
    connection) and so that the handler's context is cancelled; timers. These are
    decided only on the harness runs over real HTTP/1.1 and HTTP/2 servers. *)
 From Coq Require Import List NArith Bool.
-From Connect Require Import Bytes Generated Duplex Call.
+From Coq.Strings Require Import Byte.
+From Connect Require Import Bytes Generated Duplex Call Envelope ClientRecv.
 Import ListNotations.
 
 Theorem context_errors_classified : forall k,
@@ -92,4 +93,25 @@ Proof. reflexivity. Qed.
 Example a_deadline_before_the_call :
   snd (api_run PConnect init [ACancel DeadlineExceeded; ASend None; AGateDo (DoErr (CtxErr DeadlineExceeded)); AGateReady; ARecv IMsg])
   = [CNone; CCode 4; CNone; CNone; CCode 4].
+Proof. reflexivity. Qed.
+
+(* Unary calls (receiveUnaryResponse): a Receive that fails with the context's code
+   — the first one, or the second one, made after the response message has
+   arrived, while the call waits for the end of the response — makes the call
+   fail with that code: it is not re-coded (repaired in /repo, 7db204c). *)
+Theorem unary_call_keeps_the_context_code :
+  forall (M : Type) (on_special : N -> bytes -> outcome) (on_eof : outcome) (on_error : N -> outcome)
+         (r1 r2 : uresult M) rest c,
+  (single M on_special on_eof on_error r1 = inr (Failed c) \/
+   (exists m, single M on_special on_eof on_error r1 = inl m /\
+              single M on_special on_eof on_error r2 = inr (Failed c))) ->
+  unary_outcome M on_special on_eof on_error (r1 :: r2 :: rest) = UFail c.
+Proof. exact unary_failure_keeps_code_lemma. Qed.
+Print Assumptions unary_call_keeps_the_context_code.
+
+(* non-vacuity: a unary gRPC call whose response message arrived and whose second
+   Receive was interrupted by a cancellation (code 1), trailers not yet there *)
+Example unary_cancel_after_message :
+  unary_outcome bytes (grpc_on_special VMalformed) (grpc_on_eof VMalformed) (grpc_on_error VMalformed)
+    [UMsg [x6f; x6b]; UErr (RErr 1); UErr (RErr 1)] = UFail 1.
 Proof. reflexivity. Qed.
